@@ -12,6 +12,9 @@ a new sub-directory — and never anything of what the cluster held while it was
 (read: "was in use before the call") or is an `InitCluster`.  (The FAT16 fixed root region is not a cluster chain and
 never grows.)
 
+`DirtyOf v d d'`: the medium `d'` is `d` with ARBITRARY contents (512 bytes a block) in the blocks of the data clusters
+that are not in use on `d` — free clusters holding anything whatsoever, stale directory entries included.
+
 Nothing is proved here.
 -/
 import Sdmmc.Spec.Volume
@@ -38,5 +41,10 @@ def dirClusters (v : FatVolume) (G : List (List Nat)) (h : Nat) : List Nat :=
 /-- Every cluster of every directory satisfies `P` or is an `InitCluster`. -/
 def DirClustersInit (v : FatVolume) (P : Nat → Prop) (d : Disk) (gh : Ghost) : Prop :=
   ∀ h, h ∈ dirIds gh.dirs → ∀ c, c ∈ dirClusters v gh.G h → P c ∨ InitCluster v d c
+
+/-- `d'` is `d` except for the contents of the data clusters that are not in use. -/
+def DirtyOf (v : FatVolume) (d d' : Disk) : Prop :=
+  BlocksOK d' ∧
+  ∀ i, (∀ c j, InRange v c → ¬ isUsed v d c → j < v.blocksPerCluster → i ≠ clusterToBlock v c + j) → d'.get i = d.get i
 
 end Sdmmc.Spec.Volume
